@@ -613,7 +613,7 @@ def run_chunk(args):
             # a case that left the daemon unclean would poison the following ones: start a fresh daemon
             dirty = obs.get("error") or not obs.get("loop_alive", True) or obs["teardown"]["slots"] != 0
             out.append(obs)
-            if dirty or obs.get("stalled"):
+            if dirty or obs.get("stalled") or not obs.get("valid", True):
                 bad_streak += 1
                 if stop_after and bad_streak >= stop_after:
                     break
